@@ -58,19 +58,22 @@ CHECKS.update({
         undecided="that cffi itself rejects non-cdata arguments",
     ),
     "C11": dict(
-        text="Operator layer only (values are C01): dunder table, symbolic instantiation of the synthesised assignment templates "
-        "(element-wise / einsum forms up to index renaming), shape guards dominating evaluation, format rules as truth tables, "
-        "axis typing of the @ format rule.",
-        technique="AST table extraction + symbolic template instantiation + truth-table evaluation + axis-space typing",
+        text="Operator layer: dunder table, abstract evaluation of the operator functions over all operand orders/modes/orderings with "
+        "symbolic dimensions (synthesised assignment must be the element-wise / einsum form, ValueError exactly on differing "
+        "dimensions, documented output format), axis typing of the @ format rule; plus engine K (addressing, monomials, coverage) "
+        "on the kernels the operators request.",
+        technique="abstract evaluation of the operator functions + axis-space typing + static analysis of the emitted operator kernels (IR)",
         design_ref="DESIGN.md section 3 C11",
         engine="S",
-        undecided="numerical values (delegated to C01)",
+        undecided="rounding / accumulation order",
     ),
     "C12": dict(
-        text="Grammar read from the parsita definitions (levels, fold direction, operator mapping), required parenthesisation vs "
-        "deparse's isinstance tuples, format printer vs grammar alternatives, literal closure via regex ASTs, exception escape of "
-        "parser callbacks, rejection coverage and sibling identity.",
-        technique="grammar/printer agreement by AST extraction, regex-AST inspection and exception-escape analysis",
+        text="The parsita grammar classes are interpreted from their source (combinator tree + abstractly evaluated semantic actions) and "
+        "compared with the reference reading (precedence, left association, literal kinds) on a corpus holding every printer output; "
+        "deparse is evaluated abstractly on every small tree/format and re-read; literal token converters must be total on the token "
+        "language (regex ASTs); exception escape of parser callbacks; rejection semantics of Assignment.__post_init__ by abstract "
+        "evaluation over all small assignment structures.",
+        technique="grammar interpretation from the AST + abstract evaluation of printers/validators + regex-AST inspection + exception-escape analysis",
         design_ref="DESIGN.md section 3 C12",
         engine="S",
         undecided="nothing beyond the recorded findings F9-F11",
